@@ -108,6 +108,13 @@ CLAIMED["C11"] = dict(
    ref="DESIGN.md §4 C11")
 
 
+CLAIMED["C15"] = dict(
+   text="Decides structural necessary conditions of termination and of the range test in dseq, each for all bounds and increments: the refusal of a naught increment or an undefined direction dominates the emitting loop and the call of the anchoring routine; the direction of time-only bounds is read from the value slot of time units only under a test of the duration type (a date unit overlays the slot and cannot move a time); date_add adds the midnight carry of every component of a compound increment to its accumulator, inside the component loop and after the component's dt_dtadd, and stores the accumulator for time-only values; __in_range_p hands the bounds to the range predicate in direction order and its four time-only tests are the mirror-consistent forms for plain and wrapping runs; the weekday skip bits agree between setter table and tester; every loop that tests __in_range_p advances the tested value through the increment.",
+   note="That the values printed are exactly FIRST + k*INC between the bounds, without duplicates, is NOT decided: it quantifies over an unbounded iteration of computed dates. Relies on the adders (C04, C11) and the order (C08).",
+   technique="static analysis: CFG dominance / reachability, union typestate via guards, loop-scoped accumulation rule, mirror agreement of guarded return expressions, table agreement",
+   ref="DESIGN.md §4 C15")
+
+
 def main():
     props = [json.loads(l)["id"] for l in open(os.path.join(HERE, "properties.jsonl"))]
     checks = []
